@@ -69,7 +69,7 @@ def gen_cases(tier, seed):
         out.append({'kind': kinds[k % len(kinds)], 'graph': desc, 'I0': I0, 'R0': R0, 'tmin': tmin,
                     'tmax': r.choice(['inf', 'inf', tmin + 1, tmin + 2, tmin + 4, tmin + 3]), 'succ': succ,
                     'stay': [r.choice([1, 1, 2, 3]) for _ in range(nn)] if r.random() < 0.4 else None,
-                    'p': r.choice([0.0, 0.1, 0.3, 0.5, 0.9, 1.0]), 'full': r.random() < 0.5, 'seed': cs,
+                    'p': r.choice([0.0, 0.1, 0.3, 0.5, 0.9, 1.0, 0.02, 0.07]), 'full': r.random() < 0.5, 'seed': cs,
                     'sim': r.choice(['basic_discrete_SIR', 'discrete_SIR'])})
     nmax = 4 if q else 5
     k = 0
@@ -449,6 +449,31 @@ def _big_graph(big):
     return G
 
 
+def edge_retention_blackbox(G, p, runs, seed, f=None):
+    """repeated seeded calls of percolate_network on a small graph: every edge of G is kept with probability p, nothing else is kept.
+    Returns None if fine, else a detail dict."""
+    import EoN
+    from .. import stats
+    f = f or EoN.percolate_network
+    edges = list(G.edges())
+    kept = {frozenset(e): 0 for e in edges}
+    rr = random.Random(seed)
+    for k in range(runs):
+        simcase.seed_all(rr.randrange(2 ** 40))
+        H = f(G, p)
+        for e in H.edges():
+            fe = frozenset(e)
+            if fe not in kept:
+                return {'why': 'kept edge is not an edge of G', 'edge': [repr(x) for x in e]}
+            kept[fe] += 1
+    for e in edges:
+        kk = kept[frozenset(e)]
+        zt = stats.ztest(kk - p * runs, p * (1 - p) * runs)
+        if (p in (0, 0.0) and kk) or (p in (1, 1.0) and kk != runs) or zt['p'] < stats.ALPHA_RUN / max(1, len(edges)):
+            return {'why': 'retention frequency', 'edge': [repr(x) for x in e], 'position_in_G_edges': edges.index(e), 'kept': kk, 'runs': runs, 'p': p}
+    return None
+
+
 def run_perc(case, res):
     import EoN
     from .. import stats
@@ -477,7 +502,11 @@ def run_perc(case, res):
             viol(res, 'percolate_network|kept_edge_not_in_G', {})
             return
         if len(edges) < 2000:
-            res['inconclusive'] = 'percolate_network draws its trials from a source the monitor does not see; too few edges for the black-box test'
+            # small graph: repeat the call and test the retention frequency of every single edge
+            bad = edge_retention_blackbox(G, p, 4000, case['seed'])
+            bump(res, 'perc_blackbox_repeated_runs', 4000)
+            if bad:
+                viol(res, 'percolate_network|each_edge_kept_with_probability_p', bad)
             return
         nb = 8
         blk = max(1, len(edges) // nb)
